@@ -472,4 +472,41 @@ example : ((run demoCfg {} [.call 0, .msg (19, 0), .cancel 0, .wake 0]).calls 0)
 example : ((run demoCfg {} [.call 0, .close (some 7), .close (some 9), .wake 0]).calls 0).phase =
     .finished (.err (.conn 7)) := by decide +kernel
 
+/-- a resolved future keeps its value under every event (a later timer, close, message or cancellation finds it done) -/
+theorem fut_final (cfg : Cfg) (g : Glob) (j : Nat) (c : Call) (e : Ev) (h : c.fut ≠ .pending) :
+    (stepCall cfg g j c e).fut = c.fut := by
+  cases e <;> simp only [stepCall] <;> (repeat' split) <;> simp_all [onMessage]
+
+theorem step_fut_final (cfg : Cfg) (s : State) (e : Ev) (j : Nat) (h : (s.calls j).fut ≠ .pending) :
+    ((step cfg s e).calls j).fut = (s.calls j).fut := by
+  simp only [step]
+  split
+  · rw [fut_final _ _ _ _ _ (by rw [fut_final _ _ _ _ _ h]; exact h), fut_final _ _ _ _ _ h]
+  · exact fut_final _ _ _ _ _ h
+
+/-- **C11 (the first resolution stands).**  Once a call's future has been resolved — by the message
+that completes it, by its timer, by the close, by a cancellation — no later event changes it,
+whatever follows and however soon: a timer firing in the same instant as the completing message,
+a close in the same turn, further messages.  In particular a call completed by its stop message
+returns its result (next theorem). -/
+theorem c11_first_resolution_stands (cfg : Cfg) (s : State) (evs : List Ev) (j : Nat) (h : (s.calls j).fut ≠ .pending) :
+    ((run cfg s evs).calls j).fut = (s.calls j).fut := by
+  induction evs generalizing s with
+  | nil => rfl
+  | cons e es ih =>
+    have h1 := step_fut_final cfg s e j h
+    simp only [run, List.foldl_cons] at ih ⊢
+    rw [ih (step cfg s e) (by rw [h1]; exact h), h1]
+
+/-- … and what the caller gets when it resumes is that resolution: a call completed by its stop
+message, not cancelled by its caller, returns its responses — whatever happened in between. -/
+theorem c11_completed_returns (cfg : Cfg) (g : Glob) (j : Nat) (c : Call)
+    (hp : c.phase = .waiting) (hf : c.fut = .ok) (hc : c.cancelReq = false) :
+    (stepCall cfg g j c (.wake j)).phase = .finished (.ok c.responses) := by
+  simp [stepCall, hp, hf, hc]
+
+/-- the completing message and the timer in the same instant, the timer callback second: the result stands -/
+example : let cfg : Cfg := fun _ => { types := [5], accept := fun _ => true, stop := fun _ => true, timeout := 3 }
+    ((run cfg {} [.call 0, .advance 3, .msg (5, 1), .fire 0, .wake 0]).calls 0).phase = .finished (.ok [(5, 1)]) := by decide +kernel
+
 end Esp.C11
